@@ -25,7 +25,7 @@ ASSUMPTIONS = ['class names are usable as file names (no "/" or NUL, no lone sur
                'unittest cases only; doctest / manuel cases share _record and writeXMLReports but their name parsing is not exercised',
                'time, hostname and timestamp attributes and the traceback part of the text are not compared']
 
-ALPH = ['plain', 'a<b&c>d"e\'f', ']]>', '\x01\x02', '\x00', '\x7f\x85', '\ud800', '\udfff x', '￾￿', '\U0001f600', 'l1\nl2',
+ALPH = ['plain', 'a<b&c>d"e\'f', ']]>', '\x01\x02', '\x00', '\x7f\x85', '\ud800', 'z\udfff', '￾￿', '\U0001f600', 'l1\nl2',
         'cr\rlf', 'crlf\r\nend', '\ttab', 'é ü 中', '', 'x' * 300, '&amp; &#1; &lt;']
 CLS = ['CPlain', 'C<w&"q\'>', 'Cé中', 'C x.y']
 MSUF = ['', '', '', '_<&>"', '_é', '_\x01', '_a b', "_'q"]
